@@ -93,6 +93,10 @@ def gen_call(rng):
             long = rng.choice([s for s in STRINGS if s])
             short = long[:rng.randrange(len(long) + 1)]
             args = [short, long] if rng.random() < 0.5 else [long, short]
+        elif rng.random() < 0.2:
+            # the same string twice (the oracle then also passes one address twice: seed C19j took a short cut for
+            # identical pointers and skipped the register saves its epilogue undoes)
+            args = [args[0], args[0]]
     elif f == "substring":
         s = rng.choice(STRINGS)
         args = [s, rng.choice([0, 1, 2, len(s), len(s) + 1, 65535, 32767, 32766, 16384, 32768]),
@@ -109,7 +113,8 @@ def oracle(rng, conv, f, args):
         return None
     sent = {r: (rng.choice([0, 1, 0x1234, 0x8000, 0xFFFF, 0x4001]) + r) & 0xFFFF for r in range(1, 11)}
     calls = 2 if f == "malloc" else 1
-    text = sc.program(conv, f, args, sent, calls)
+    alias = f in ("concat", "tstrcmp") and args[0] == args[1] and rng.random() < 0.6
+    text = sc.program(conv, f, args, sent, calls, alias=alias)
     sp0 = 0
     if conv == "stack" and f in ("div", "mod", "not", "size", "ord") and rng.random() < 0.25:
         # the caller's stack at the very top of memory: frame cells wrap around (D49; seed C19g made the Python
@@ -117,7 +122,8 @@ def oracle(rng, conv, f, args):
         sp0 = rng.choice([0xFFF0, 0xFFFB, 0xFFFC, 0xFFFD, 0xFFFE, 0xFFFF])
         text = text.replace("CBON()\n", "CBON()\nSET(R15, 0x%04x)\n" % sp0, 1)
     r = sc.run(text)
-    what = "%s %s(%s)%s" % (conv, f, ", ".join(repr(a) for a in args), " with SP = 0x%04x" % sp0 if sp0 else "")
+    what = "%s %s(%s)%s%s" % (conv, f, ", ".join(repr(a) for a in args), " with SP = 0x%04x" % sp0 if sp0 else "",
+                            " (both arguments one address)" if alias else "")
     if "raise" in r:
         return "%s: %s" % (what, r["raise"])
     vm, sym = r["vm"], r["symbols"]
